@@ -162,8 +162,8 @@ impl Prop for Totality {
 
     fn runs(&self, tier: Tier) -> u64 {
         match tier {
-            Tier::Quick => 8000,
-            Tier::Thorough => 200_000,
+            Tier::Quick => 400_000,
+            Tier::Thorough => 8_000_000,
         }
     }
 
